@@ -73,7 +73,7 @@ def cfg(mode, invs, max_tok=0, max_depth=0, operands=(), infix=INFIX, prefix=PRE
 
 # the evaluators of Expr.tla recurse over the token string; TLC's interpreter needs a deeper Java stack for 30-40 tokens
 JVM = {"JAVA_TOOL_OPTIONS": "-Xss64m"}
-EXPR_INVS = ["TypeOK", "StackShape", "ShuntEqualsGrammar", "InWindow", "ExportExpr"]
+EXPR_INVS = ["TypeOK", "StackShape", "ShuntEqualsGrammar", "InWindow", "ExportExpr", "ExportWrapped"]
 
 
 # ------------------------------------------------------------------------------------------ expected bytes
@@ -377,7 +377,7 @@ class Replayer:
                 self.batch.append(r)
             else:
                 self.single.append((r, dot_v if has_dot else None))
-                if st == "err" and not has_dot and ntok <= 7:
+                if st == "err" and not has_dot and ntok <= 11:
                     # an error must be reported also when its operands are still unknown at the first evaluation (and whatever the
                     # rest of the expression does with the erroneous value, e.g. multiply it by zero)
                     self.single.append((r + ("pending",), None))
